@@ -414,12 +414,20 @@ type outcomeHist map[string]int
 
 // search explores all delivery sequences (state = set of received indices) with the opx engine.
 func (pc *partCase) search(r *vk.Run, depthExtra int) vk.Result {
+	// state-key adequacy self-test: re-expand both representatives of every k-th merge (serial, so rarer for
+	// the larger lattices)
+	every := 64
+	if n := len(pc.genuine); n >= 6 {
+		every = 4096
+	} else if n >= 4 {
+		every = 512
+	}
 	spec := vk.Spec{
 		Name:            pc.name,
 		NumOps:          len(pc.ops),
 		OpName:          func(i int) string { return pc.ops[i].name },
 		Depth:           len(pc.genuine) + depthExtra,
-		MergeCheckEvery: 64,
+		MergeCheckEvery: every,
 		Exec: func(hist []int) (out vk.Outcome) {
 			defer func() {
 				if e := recover(); e != nil {
